@@ -168,6 +168,9 @@ func VerifJumpCase(maxDepth int) (stmts Stmts, placed *token.LnColPos, label str
 	after := false
 	if depth > 0 {
 		after = verifnd.Choice(2) == 1
+		if after {
+			g.EmptyAfter = verifnd.Bool()
+		}
 	}
 	isLoop := func(k int) bool { return k == VerifIn_For || k == VerifIn_ForIn }
 	for i := range path {
